@@ -54,6 +54,11 @@ pub struct NodeWrapper {
 
 impl NodeWrapper {
     fn from(node: &CfgNode, cfg: &Cfg) -> Self {
+        // The functions of the node in the order of their entries, so that
+        // the dump does not depend on hash iteration order
+        let position = |other: &CfgNode| cfg.iter().position(|n| n.id() == other.id()).unwrap();
+        let mut functions = node.functions().iter().cloned().collect::<Vec<_>>();
+        functions.sort_by_key(|func| position(&func.entry()));
         NodeWrapper {
             node: node.node(),
             labels: node
@@ -61,23 +66,13 @@ impl NodeWrapper {
                 .iter()
                 .map(std::string::ToString::to_string)
                 .collect(),
-            func_entry: node
-                .functions()
+            func_entry: functions
                 .iter()
-                .map(|func| {
-                    cfg.iter()
-                        .position(|other| func.entry().id() == other.id())
-                        .unwrap()
-                })
+                .map(|func| position(&func.entry()))
                 .collect::<Vec<_>>(),
-            func_exit: node
-                .functions()
+            func_exit: functions
                 .iter()
-                .map(|func| {
-                    cfg.iter()
-                        .position(|other| func.exit().id() == other.id())
-                        .unwrap()
-                })
+                .map(|func| position(&func.exit()))
                 .collect::<Vec<_>>(),
             nexts: node
                 .nexts()
